@@ -42,8 +42,9 @@ type Conn struct {
 	conn    net.Conn
 	enabled imap.CapSet
 
-	state   imap.ConnState
-	session Session
+	state    imap.ConnState
+	readOnly bool // whether the mailbox was selected with EXAMINE
+	session  Session
 }
 
 func newConn(c net.Conn, server *Server) *Conn {
